@@ -148,6 +148,12 @@ class RawBinaryReader:
                 futures.append(executor.submit(read_bes_raw, batch_data, sub_detectors))
                 n_total_blocks_read += n_read
 
+            if not futures:
+                # nothing was read (no blocks / n_blocks == 0): decode an empty buffer so that an empty array is returned
+                futures.append(
+                    executor.submit(read_bes_raw, np.empty(0, dtype=np.uint32), sub_detectors)
+                )
+
             res = []
             for future in futures:
                 org_dict = future.result()
